@@ -11,7 +11,8 @@ MAX_PATHS = 60000
 ENCODED = ['Fxp.__init__', 'Fxp._init_size', 'Fxp.set_best_sizes', 'Fxp.resize', 'Fxp.set_val', 'Fxp._format_inupt_val', 'Fxp._round',
            'Fxp._overflow_action', 'utils.clip']
 ASSUMPTIONS = [
-    'inputs are dyadic rationals v = k / 2^f0 (float carrier; Python int carrier for f0 = 0) with f0 <= 4 (quick) / 6 (thorough) and |k| < 2^12 / 2^20; '
+    'inputs are dyadic rationals v = k / 2^f0 (float carrier; Python int carrier for f0 = 0) with f0 <= 4 (quick) / 8 (thorough) and |k| < 2^12 / 2^20 '
+    '(2^14 for f0 in 5..6, 2^11 for f0 in 7..8); '
     'two-cell arrays with f0 <= 2 and |k| < 2^8.  The fraction search of the real code forks once per fractional bit pattern, so larger f0 is out of reach '
     '(the property asks f <= 20); the integer part is fully symbolic',
     'unsigned inference is driven with non-negative values only (a negative value has no exact unsigned representation)',
@@ -24,20 +25,20 @@ ASSUMPTIONS = [
 def configs(tier, seed):
     rng = random.Random(seed)
     out = []
-    f0s = (0, 1, 2, 3, 4) if tier == 'quick' else (0, 1, 2, 3, 4, 5, 6)
+    f0s = (0, 1, 2, 3, 4) if tier == 'quick' else (0, 1, 2, 3, 4, 5, 6, 7, 8)
     kb = 12 if tier == 'quick' else 20
     for f0 in f0s:
         for signed in (None, True, False):
-            out.append(dict(part='none', signed=signed, f0=f0, kbits=kb if f0 <= 4 else 14, carrier='float', cells=1))
+            out.append(dict(part='none', signed=signed, f0=f0, kbits=kb if f0 <= 4 else (14 if f0 <= 6 else 11), carrier='float', cells=1))
             if f0 == 0:
                 out.append(dict(part='none', signed=signed, f0=0, kbits=kb, carrier='int', cells=1))
             for N in ((8, 16) if tier == 'quick' else (4, 8, 16, 24, 32)):
                 out.append(dict(part='n_word', signed=signed, f0=f0, kbits=min(kb, N - 3), carrier='float', cells=1, N=N))
             for Fg in ((0, 2) if tier == 'quick' else (0, 1, 2, 5, 8)):
-                out.append(dict(part='n_frac', signed=signed, f0=f0, kbits=kb if f0 <= 4 else 14, carrier='float', cells=1, Fg=Fg))
+                out.append(dict(part='n_frac', signed=signed, f0=f0, kbits=kb if f0 <= 4 else (14 if f0 <= 6 else 11), carrier='float', cells=1, Fg=Fg))
     for f0 in (0, 1, 2):
         for signed in (None, False):
-            out.append(dict(part='none', signed=signed, f0=f0, kbits=8, carrier='float', cells=2))
+            out.append(dict(part='none', signed=signed, f0=f0, kbits=8 if tier == 'quick' else 10, carrier='float', cells=2))
     for signed in (True, False, None):
         for (ni, other, val) in (('n_word', 12, 3), ('n_frac', 5, 3), ('n_word', 8, 0), ('n_frac', 0, 7)):
             out.append(dict(part='n_int', signed=signed, f0=2, kbits=6, carrier='float', cells=1, n_int=val, other=ni, other_val=other))
